@@ -43,8 +43,9 @@ LSet(l, n, v) == IF ~LHas(l, n) THEN Append(l, <<n, v>>)
                       IN SubSeq(l, 1, first - 1) \o << <<n, v>> >> \o SelectSeq(Drop(l, first), keepAfter)
 (* Iterate(f) hands every stored pair to f and then writes through; the harness's f appends v to every value *)
 LIterAppend(l, v) == [i \in 1..Len(l) |-> <<l[i][1], l[i][2] \o v>>]
-ListOps == {"append", "delete", "set", "sort", "sortabs", "iterappend"}
+LIterFirst(l, v) == [i \in 1..Len(l) |-> IF i = 1 THEN <<l[i][1], l[i][2] \o v>> ELSE l[i]]     \* f changes only the first pair
+ListOps == {"append", "delete", "set", "sort", "sortabs", "iterappend", "iterfirst"}
 ListOp(l, op, n, v) == CASE op = "append" -> LAppend(l, Ingest(n), Ingest(v)) [] op = "delete" -> LDelete(l, Ingest(n))
                          [] op = "set" -> LSet(l, Ingest(n), Ingest(v)) [] op = "sort" -> SortByName(l) [] op = "sortabs" -> SortByBoth(l)
-                         [] op = "iterappend" -> LIterAppend(l, Ingest(v))
+                         [] op = "iterappend" -> LIterAppend(l, Ingest(v)) [] op = "iterfirst" -> LIterFirst(l, Ingest(v))
 ====
